@@ -336,6 +336,50 @@ impl Sys {
         if flavour == 0 {
             return self.bring_up(connack_props);
         }
+        if flavour == 2 {
+            // the CONNACK arrives through authorize() after an extended-authentication round trip
+            self.connect_with(
+                ConnectSpec {
+                    auth_method: Some("m".into()),
+                    auth_data: Some(vec![1]),
+                    ..Default::default()
+                },
+                SPacket::Auth {
+                    reason: 0x18,
+                    props: vec![Prop::str(P_AUTH_METHOD, "m"), Prop::bin(P_AUTH_DATA, &[2])],
+                    form: 2,
+                },
+            );
+            if self.dead {
+                return;
+            }
+            let a = AuthSpec {
+                reason: Some(0x18),
+                method: Some("m".into()),
+                data: Some(vec![3]),
+                user_props: vec![],
+            };
+            self.events.push("Authorize".into());
+            self.classes.push("Authorize".into());
+            self.m.authorize(&a);
+            self.w.cmd(CtxCmd::Authorize(a));
+            self.sync();
+            if self.dead {
+                return;
+            }
+            let mut props = vec![Prop::str(P_AUTH_METHOD, "m")];
+            props.extend(connack_props);
+            self.apply(Ev::Deliver(SPacket::Connack {
+                session_present: false,
+                reason: 0,
+                props,
+            }));
+            if self.dead {
+                return;
+            }
+            self.start_run();
+            return;
+        }
         let spec = ConnectSpec {
             client_id: Some("flavoured".into()),
             keep_alive: Some(10),
